@@ -189,15 +189,12 @@ fn one_case(rng: &mut Rng, rep: &mut Report) {
             let r = guarded(|| crate::wrun::transact_plain(&mut refdb, h.spec, &h.block, tx));
             let Ok(r) = r else { return };
             if let Ok(rs) = r {
+                // accounts the reference removes by EIP-161 state clearing although nothing destroyed
+                // them: CacheDB has no state-clear notion and keeps serving their (underlying) storage.
+                // Self-destructed accounts are NOT exempt: CacheDB clears their storage itself.
                 if h.spec >= SpecId::SPURIOUS_DRAGON {
                     for (a, acc) in rs.state.iter() {
-                        if acc.is_touched() && (acc.info.is_empty() || acc.is_selfdestructed()) {
-                            cleared.insert(*a);
-                        }
-                    }
-                } else {
-                    for (a, acc) in rs.state.iter() {
-                        if acc.is_touched() && acc.is_selfdestructed() {
+                        if acc.is_touched() && acc.info.is_empty() && !acc.is_selfdestructed() {
                             cleared.insert(*a);
                         }
                     }
